@@ -42,6 +42,8 @@ var ErrReadFileForPoolBuffer = fmt.Errorf("failed to read file for pool buffer")
 var ErrLoadTsoFile = fmt.Errorf("failed to load TSO file")
 var ErrLoadTsgFile = fmt.Errorf("failed to load TSG file")
 var ErrBadTsgVersion = fmt.Errorf("bad TSG version")
+var ErrTruncatedTso = fmt.Errorf("TSO file is shorter than its entries")
+var ErrTruncatedTsg = fmt.Errorf("TSG file is shorter than the series it should hold")
 
 /*
 Holder struct to read a single time series segment
@@ -319,6 +321,9 @@ func (tsbr *TimeSeriesBlockReader) GetTimeSeriesIterator(tsid uint64) (*compress
 	var found bool
 	var offset uint32
 	var tsIDX uint32
+	if tsbr.numTSIDs == 0 {
+		return nil, false, nil
+	}
 	if !tsbr.first {
 		if tsid < tsbr.lastTSID {
 			found, tsIDX, offset = getOffsetFromTsoFile(tsbr.tsoVersion, 0, tsbr.lastTSidx, uint32(tsbr.numTSIDs), tsid, tsbr.rawTSO)
@@ -339,9 +344,19 @@ func (tsbr *TimeSeriesBlockReader) GetTimeSeriesIterator(tsid uint64) (*compress
 	tsbr.lastTSID = tsid
 	tsbr.lastTSidx = tsIDX
 
-	offset += 9 // 1 byte for version + 8 bytes is for tsid
+	// the offset and the length come from the files: check them against the buffer
+	// 1 byte for version + 8 bytes for tsid + 4 bytes for the length
+	if uint64(offset)+13 > uint64(len(tsbr.rawTSG)) {
+		log.Error(ErrTruncatedTsg)
+		return nil, true, ErrTruncatedTsg
+	}
+	offset += 9
 	tsgLen := utils.BytesToUint32LittleEndian(tsbr.rawTSG[offset : offset+4])
 	offset += 4
+	if uint64(offset)+uint64(tsgLen) > uint64(len(tsbr.rawTSG)) {
+		log.Error(ErrTruncatedTsg)
+		return nil, true, ErrTruncatedTsg
+	}
 	rawSeries := bytes.NewReader(tsbr.rawTSG[offset : offset+tsgLen])
 	it, err := compress.NewDecompressIterator(rawSeries)
 	if err != nil {
@@ -412,15 +427,32 @@ func (tssr *TimeSeriesSegmentReader) loadTSOFile(fileName string) (byte, []byte,
 		return 0, nil, 0, err
 	}
 
+	if len(tssr.tsoBuf) == 0 {
+		return 0, nil, 0, ErrTruncatedTso
+	}
 	tsoVersion := tssr.tsoBuf[0]
 	nEntries := uint64(0)
+	headerLen := uint64(0)
 	switch tsoVersion {
 	case sutils.VERSION_TSOFILE_V1[0]:
+		headerLen = 3
+		if uint64(len(tssr.tsoBuf)) < headerLen {
+			return 0, nil, 0, ErrTruncatedTso
+		}
 		nEntries = uint64(utils.BytesToUint16LittleEndian(tssr.tsoBuf[1:3]))
 	case sutils.VERSION_TSOFILE_V2[0]:
+		headerLen = 9
+		if uint64(len(tssr.tsoBuf)) < headerLen {
+			return 0, nil, 0, ErrTruncatedTso
+		}
 		nEntries = utils.BytesToUint64LittleEndian(tssr.tsoBuf[1:9])
 	default:
 		return 0, nil, 0, ErrBadTsoVersion
+	}
+	// every entry takes 8 bytes for the tsid and 4 bytes for its offset; the look-up
+	// indexes the buffer with the entry count, so the count has to fit the file
+	if nEntries > (uint64(len(tssr.tsoBuf))-headerLen)/12 {
+		return 0, nil, 0, ErrTruncatedTso
 	}
 
 	return tsoVersion, tssr.tsoBuf, nEntries, nil
